@@ -120,6 +120,8 @@ func judgeLifetimeRecovery(e *env, frontEnd string) {
 		conn, step int
 		answered   bool // the whole reply frame had been read by the client from the connection
 		expired    bool // the connection ended at or after its lifetime
+		closedStep int  // step in which the client closed that connection (-1: it did not)
+		acceptStep int  // step in which that connection was opened
 	}
 	frameEnd := map[[2]int]int{}
 	for _, l := range e.sim.Links {
@@ -140,7 +142,7 @@ func judgeLifetimeRecovery(e *env, frontEnd string) {
 		if l == nil {
 			continue
 		}
-		x := execAt{conn: ex.Conn, step: ex.Step}
+		x := execAt{conn: ex.Conn, step: ex.Step, closedStep: l.C.ClientClosedStep(), acceptStep: l.AcceptStep}
 		nread, _, _, _, _ := l.C.Stats()
 		if end, ok := frameEnd[[2]int{ex.Conn, ex.ConnSeq}]; ok && end <= nread {
 			x.answered = true
@@ -168,9 +170,18 @@ func judgeLifetimeRecovery(e *env, frontEnd string) {
 				if x.expired {
 					rule, how = "executed-twice-after-lifetime-expiry", fmt.Sprintf("after connection %d ended at or after ConnLifetime (%v) with the reply outstanding", x.conn, lt)
 				}
-				if x.answered && i < len(xs)-1 && e.plan.Opt.AlwaysPipelining {
-					rule, how = "answered-write-executed-again", fmt.Sprintf("although the client had read the reply of execution %d from connection %d", i+1, x.conn)
-					break
+				if x.answered && x.closedStep >= 0 && (e.plan.Opt.AlwaysPipelining || spec.Kind == "do") {
+					// sent again AFTER the answer had been read: the other execution arrived on a connection that was
+					// opened after the client had closed this one (a command that was written first and delivered late -
+					// bytes written before a close still reach the server - is the original, not a re-send)
+					for j, y := range xs {
+						if j != i && y.acceptStep > x.closedStep {
+							rule, how = "answered-write-executed-again", fmt.Sprintf("although the client had read the reply of the execution on connection %d before it closed that connection (step %d) and opened connection %d (step %d)", x.conn, x.closedStep, y.conn, y.acceptStep)
+						}
+					}
+					if rule == "answered-write-executed-again" {
+						break
+					}
 				}
 			}
 			out.violate("C03", rule, "%s client: task %d call %d cmd %d %q (%s of %d commands), neither read-only nor retryable, was executed %d times (%+v) %s", frontEnd, task, rec.Index, ci, truncArgv(c.Argv), spec.Kind, len(spec.Cmds), len(xs), xs, how)
